@@ -285,6 +285,10 @@ def run(ctx: Ctx) -> None:
     ctx.floor("C18.RESET", n, 10)
     n = rule_inputs(ctx, "C18.INPUTS")
     ctx.floor("C18.INPUTS", n, 10)
+    from .c11 import rule_stateless
+
+    n = rule_stateless(ctx, "C18.STATELESS", None)
+    ctx.floor("C18.STATELESS", n, 100)
     for key in (
         "pandora/aggregation/cbca.py::CrossBasedCostAggregation.cost_volume_aggregation",
         "pandora/matching_cost/sad_ssd.py::SadSsd.compute_cost_volume",
@@ -332,6 +336,7 @@ SPEC = PropSpec(
 RISK = "pandora/cost_volume_confidence/risk.py"
 AMB = "pandora/cost_volume_confidence/ambiguity.py"
 MUTANTS = [
+    {"id": "median-caches-last-result-on-self", "file": "pandora/filter/median.py", "old": "        disp_median = self.median_filter(masked_data)\n", "new": "        disp_median = self.median_filter(masked_data)\n        self._last = disp_median\n"},
     {"id": "ambiguity-row0", "file": AMB, "old": "                    ambiguity[row, col] = etas.shape[0] * nb_disps\n", "new": "                    ambiguity[0, col] = etas.shape[0] * nb_disps\n", "count": 2},
     {"id": "shared-scalar-accumulator", "edits": [(AMB, "        ambiguity = np.zeros((n_row, n_col), dtype=np.float32)\n", "        ambiguity = np.zeros((n_row, n_col), dtype=np.float32)\n        total = 0.0\n", 2), (AMB, "                if np.isnan(normalized_min_cost):\n                    ambiguity[row, col] = etas.shape[0] * nb_disps\n", "                total += normalized_min_cost\n                if np.isnan(normalized_min_cost):\n                    ambiguity[row, col] = etas.shape[0] * nb_disps\n", 2)]},
     {"id": "hard-coded-parallel", "file": "pandora/refinement/refinement.py", "old": '    @njit(parallel=literal_eval(os.environ.get("PANDORA_NUMBA_PARALLEL", "True")))\n    def loop_refinement(', "new": "    @njit(parallel=True)\n    def loop_refinement("},
